@@ -10,7 +10,6 @@ import (
 	"sync"
 
 	"github.com/NethermindEth/juno/core"
-	"github.com/NethermindEth/juno/core/felt"
 	"verif/harness/lib"
 )
 
@@ -206,5 +205,3 @@ func (u *universe) observeFilter(rf *core.RunningEventFilter, floor uint64) filt
 	}
 	return filterObs{From: from, Next: next, Cells: cellsString(cs)}
 }
-
-var _ = felt.Zero
